@@ -122,6 +122,12 @@ func settingsOf(o *options.Options) []cfgSetting {
 	add("session-store-type", o.Session.Type)
 	add("redis-connection-url", o.Session.Redis.ConnectionURL)
 	add("session-cookie-minimal", o.Session.Cookie.Minimal)
+	if o.Logging.RequestFormat != options.NewOptions().Logging.RequestFormat {
+		add("request-logging-format", o.Logging.RequestFormat)
+	}
+	if o.Logging.AuthFormat != options.NewOptions().Logging.AuthFormat {
+		add("auth-logging-format", o.Logging.AuthFormat)
+	}
 	add("allow-query-semicolons", o.AllowQuerySemicolons)
 	add("signature-key", o.SignatureKey)
 	add("proxy-prefix", o.ProxyPrefix)
